@@ -28,7 +28,8 @@ def universes(tier, base="StateMachine"):
     for first_mf in (False, True):
         for with_default in (False, True):
             for kind in (("timed",) if tier == "quick" else ("timed", "state")):
-                specs = [StateSpec("first", kind, first=True, must_finish=first_mf), StateSpec("reg", kind), StateSpec("mf", kind, must_finish=True)]
+                # (one universe per shape declares a literal zero duration: a legal "run exactly once" state)
+                specs = [StateSpec("first", kind, first=True, must_finish=first_mf), StateSpec("reg", kind, duration=0 if first_mf else None), StateSpec("mf", kind, must_finish=True)]
                 if with_default:
                     specs.append(StateSpec("dflt", "default", params=("tm", "state_tm", "initial_call")))
                 name = f"{base}[{kind};first{'+mf' if first_mf else ''};{'default' if with_default else 'nodefault'}]"
@@ -206,15 +207,17 @@ def make_world(program, specs, base, configure):
     configure(it)
     cls, wrappers = build_class(it, MODULE, base, specs)
     m = instantiate(it, cls)
-    # injected by MagicRobot (declared on the class): a third-party logger whose calls are ignorable events
-    m.fields["logger"] = Ext("logging.getLogger(<component name>)", "lib", role="instance")
-    for sp in specs:
-        if sp.kind == "timed":
-            # as if the duration topic had been edited before entry: differs from the decorator value
-            m.fields["$tunable:" + sp.name + "_duration"] = Sym("ntdur_" + sp.name, "num", tag="duration", uid=0)
+    other = instantiate(it, cls)  # a second, idle instance of the same class: it must never be affected (rule ISO)
+    for x in (m, other):
+        # injected by MagicRobot (declared on the class): a third-party logger whose calls are ignorable events
+        x.fields["logger"] = Ext("logging.getLogger(<component name>)", "lib", role="instance")
+        for sp in specs:
+            if sp.kind == "timed":
+                # as if the duration topic had been edited before entry: differs from the decorator value
+                x.fields["$tunable:" + sp.name + "_duration"] = Sym("ntdur_" + sp.name, "num", tag="duration", uid=0)
     if base == "StateMachine" or True:
         cls.mutable = False  # nothing writes the class after construction (checked: class_write events)
-    return {"machine": m}, it
+    return {"machine": m, "other": other}, it
 
 
 def configure(it):
@@ -553,7 +556,7 @@ def run_closure(program, tier, base="StateMachine"):
         mon = SMMonitor(specs, base)
         r = close(
             program, world, dict(GHOST0), client_actions(specs, base), run_sm_action, mon,
-            lambda: SMHooks(specs, max_script, max_nest), configure=configure,
+            lambda: SMHooks(specs, max_script, max_nest), configure=configure, frozen_roots=("other",),
         )
         results.append((uname, specs, r))
     return results
